@@ -793,5 +793,23 @@ fn dump_fn<'tcx>(tcx: TyCtxt<'tcx>, ldid: LocalDefId) -> J {
     if matches!(kind, DefKind::Closure) {
         v.push(("parent", J::s(fn_key(tcx, tcx.parent(did)))));
     }
+    // promoted constants (`&(4..=18)`, `&[..]` literals) as miniature bodies
+    let mut proms = Vec::new();
+    for pb in tcx.promoted_mir(did).iter() {
+        let mut plocals = Vec::new();
+        for (_l, decl) in pb.local_decls.iter_enumerated() {
+            plocals.push(J::Obj(vec![
+                ("ty", J::s(format!("{}", decl.ty))),
+                ("tyj", ty_json(tcx, decl.ty)),
+                ("mut", J::Bool(decl.mutability.is_mut())),
+            ]));
+        }
+        let mut pblocks = Vec::new();
+        for (_bb, data) in pb.basic_blocks.iter_enumerated() {
+            pblocks.push(block_json(tcx, env, pb, data));
+        }
+        proms.push(J::Obj(vec![("locals", J::Arr(plocals)), ("blocks", J::Arr(pblocks))]));
+    }
+    v.push(("promoted", J::Arr(proms)));
     J::Obj(v)
 }
